@@ -97,7 +97,7 @@ func main() {
 	ex.Header("C02", "ElaVerif.Lemmas.WireTokens")
 	m := wiretok.Load("p2p/msg")
 	var lims []int64
-	for _, n := range []string{"MaxInvPerMsg", "MaxBlockLocatorsPerMsg", "MaxAddrPerMsg"} {
+	for _, n := range []string{"MaxInvPerMsg", "MaxBlockLocatorsPerMsg", "MaxAddrPerMsg", "pact.MaxTxPerBlock"} {
 		v, ok := m.ConstInt(n)
 		if !ok {
 			ex.Die("p2p/msg: %s is not a constant", n)
@@ -185,31 +185,39 @@ func main() {
 	// "was an `if count > <Max> { return … }` statement seen before it?"
 	fmt.Printf("def p2pCountMakes : List (String × String × Bool) := [")
 	first := true
-	for _, rn := range []string{"Inv", "GetBlocks", "Addr"} {
+	for _, rn := range []string{"Inv", "GetBlocks", "Addr", "MerkleBlock"} {
 		fd := m.Funcs[rn+".Deserialize"]
 		if fd == nil {
 			ex.Die("p2p/msg: %s.Deserialize not found", rn)
 		}
 		f := m.FileOf[rn+".Deserialize"]
-		guarded := false
+		// variables compared with a constant maximum by an `if v > Max { …; return }` seen so far
+		guarded := map[string]bool{}
 		for _, st := range fd.Body.List {
 			if is, ok := st.(*ast.IfStmt); ok {
-				if be, ok := is.Cond.(*ast.BinaryExpr); ok && f.Src(be.X) == "count" && be.Op.String() == ">" {
-					if _, isConst := m.ConstInt(f.Src(be.Y)); isConst && len(is.Body.List) > 0 {
-						if _, ret := is.Body.List[len(is.Body.List)-1].(*ast.ReturnStmt); ret {
-							guarded = true
+				if be, ok := is.Cond.(*ast.BinaryExpr); ok && be.Op.String() == ">" {
+					if id, isId := be.X.(*ast.Ident); isId && len(is.Body.List) > 0 {
+						_, isConst := m.ConstInt(f.Src(be.Y))
+						_, ret := is.Body.List[len(is.Body.List)-1].(*ast.ReturnStmt)
+						if isConst && ret {
+							guarded[id.Name] = true
 						}
 					}
 				}
 			}
 			ast.Inspect(st, func(n ast.Node) bool {
 				c, ok := n.(*ast.CallExpr)
-				if ok && f.Src(c.Fun) == "make" && strings.Contains(f.Src(c), "count") {
+				if ok && f.Src(c.Fun) == "make" && len(c.Args) >= 2 {
+					sz, isId := c.Args[len(c.Args)-1].(*ast.Ident)
+					if !isId {
+						return true
+					}
 					if !first {
 						fmt.Printf(", ")
 					}
 					first = false
-					fmt.Printf("(%s, %s, %v)", ex.LeanStr(rn), ex.LeanStr(f.Src(c)), guarded)
+					// guarded = the size variable itself was checked against a maximum before this make
+					fmt.Printf("(%s, %s, %v)", ex.LeanStr(rn), ex.LeanStr(f.Src(c)), guarded[sz.Name])
 				}
 				return true
 			})
